@@ -21,6 +21,12 @@ class World:
         self.e._ezsp_version = version
         self.e._protocol.command = self.fake_command
         self.e.start_ezsp()
+        # a second EZSP object alive in the same process (another radio, a tool next to the application, the old object around a
+        # reconnect): what its NCP reports is none of the first object's business
+        self.e2 = ezsp.EZSP({"path": "/dev/null"})
+        self.e2._protocol = ezsp.EZSP._BY_VERSION[version](self.e2.handle_callback, None)
+        self.e2._ezsp_version = version
+        self.e2.start_ezsp()
         self.app = None
         self.log = []
         self.queue = []  # (op id, name, future) commands awaiting a scripted response, FIFO
@@ -166,6 +172,20 @@ class World:
             tag = int(ev[2:])
             self.loop.iterate([(self.e.handle_callback, "energyScanResultHandler", [t.uint8_t(11), t.int8s(tag - 256 if tag > 127 else tag)])])
             self.loop.settle()
+        elif k == "Z":
+            st = ev[2:]
+            if v14:
+                val = {"up": t.sl_Status.NETWORK_UP, "down": t.sl_Status.NETWORK_DOWN}[st]
+            else:
+                val = {"up": t.EmberStatus.NETWORK_UP, "down": t.EmberStatus.NETWORK_DOWN}[st]
+            self.loop.iterate([(self.e2.handle_callback, "stackStatusHandler", [val])])
+            self.loop.settle()
+        elif k == "N":
+            # the scan's other kind of result callback (a network found): a result like any other, in reception order
+            tag = int(ev[2:])
+            net = t.EmberZigbeeNetwork(channel=11, panId=0x1234, extendedPanId=t.ExtendedPanId([2] * 8), allowingJoin=0, stackProfile=2, nwkUpdateId=0)
+            self.loop.iterate([(self.e.handle_callback, "networkFoundHandler", [net, t.uint8_t(tag), t.int8s(-40)])])
+            self.loop.settle()
         elif k == "X":
             ok = ev[2:] == "1"
             st = (t.sl_Status.OK if v14 else t.EmberStatus.SUCCESS) if ok else (t.sl_Status.FAIL if v14 else t.EmberStatus.ERR_FATAL)
@@ -208,7 +228,8 @@ def run_script(version, script):
                 w.do("W"); mev.append("W=1/1000"); w.attr.append(None)
                 continue
             w.do(ev)
-            mev.append(ev)
+            # (to the model both kinds of result are results; an event of the other EZSP object is no event at all)
+            mev.append("I" + ev[1:] if ev[0] == "N" else "W=0/1" if ev[0] == "Z" else ev)
             w.attr.append(None)
             w.do("W"); mev.append("W=1/1000"); w.attr.append(None)
     finally:
@@ -336,7 +357,7 @@ def scripts(ctx):
     out = []
     status_kinds = ["form", "leave", "up"]
     for kind in status_kinds:
-        alpha = ["R=ok", "R=refused", "R=notjoined", "R=joined", "E=up", "E=down", "E=other", "T", "C=1"]
+        alpha = ["R=ok", "R=refused", "R=notjoined", "R=joined", "E=up", "E=down", "E=other", "T", "C=1", "Z=up", "Z=down"]
         L = ctx.n(3, 5)
         for n in range(1, L + 1):
             for w in itertools.product(alpha, repeat=n):
@@ -348,7 +369,8 @@ def scripts(ctx):
             for x in w:
                 if x == "I":
                     tag += 1
-                    sc.append(f"I={tag}")
+                    # (the two kinds of result callback alternate)
+                    sc.append(f"{'IN'[tag % 2]}={tag}")
                 elif x == "J":
                     # the same result again (same channel, same value): every result callback counts
                     sc.append(f"I={max(tag, 1)}")
@@ -367,9 +389,9 @@ def scripts(ctx):
             elif x < 0.45:
                 sc.append("R=" + rng.choice(["ok", "ok", "ok", "refused", "notjoined", "joined"]))
             elif x < 0.65:
-                sc.append("E=" + rng.choice(["up", "down", "other"]))
+                sc.append(rng.choice(["E=up", "E=down", "E=other", "E=up", "E=down", "Z=up", "Z=down"]))
             elif x < 0.75:
-                sc.append(f"I={rng.choice([7, 7, 8, rng.randrange(1, 100)])}")
+                sc.append(f"{rng.choice('IIN')}={rng.choice([7, 7, 8, rng.randrange(1, 100)])}")
             elif x < 0.85:
                 sc.append("X=" + rng.choice("110"))
             elif x < 0.93:
